@@ -19,24 +19,26 @@ import (
 // equal the library string and either the exit status is non-zero or the file is exact.
 
 type c18Case struct {
-	name   string
-	docs   []Doc
-	docs2  []Doc
-	lay    Layout
-	lay2   Layout
-	files  []FSEntry // verbatim corpus directory instead of docs
-	files2 []FSEntry
-	cmd    string // list | diff
-	fmt    string // "" = flag omitted
-	exp    bool
-	focus  string
-	fail   bool
-	verb   string // "", "-q", "-v"
-	outf   string // "" | path
-	fault  *Fault
-	seed   uint64
-	stale  bool   // the -f target already exists and holds a longer, older report
-	dir2   string // diff: second directory as spelled on the command line ("b", or the first one again)
+	name       string
+	docs       []Doc
+	docs2      []Doc
+	lay        Layout
+	lay2       Layout
+	files      []FSEntry // verbatim corpus directory instead of docs
+	files2     []FSEntry
+	cmd        string // list | diff
+	fmt        string // "" = flag omitted
+	exp        bool
+	focus      string
+	fail       bool
+	verb       string // "", "-q", "-v"
+	outf       string // "" | path
+	fault      *Fault
+	seed       uint64
+	stale      bool   // the -f target already exists and holds a longer, older report
+	dir2       string // diff: second directory as spelled on the command line ("b", or the first one again)
+	flagsFirst bool   // persistent flags precede the subcommand
+	dirSpell   string // list: how the directory is spelled ("a", "./a", "a/", absolute is not possible: the scratch root is unknown here)
 }
 
 // badFmt: the -o value is not one the command documents (json is a list format only).
@@ -66,7 +68,11 @@ func (c *c18Case) fs() []FSEntry {
 func (c *c18Case) cliArgs() []string {
 	var a []string
 	if c.cmd == "list" {
-		a = []string{"list", "--dirpath", "a"}
+		d := "a"
+		if c.dirSpell != "" {
+			d = c.dirSpell
+		}
+		a = []string{"list", "--dirpath", d}
 		if c.exp {
 			a = append(a, "--exposure")
 		}
@@ -88,12 +94,32 @@ func (c *c18Case) cliArgs() []string {
 	if c.outf != "" {
 		a = append(a, "-f", c.outf)
 	}
+	if c.flagsFirst {
+		// the root command's persistent flags may come before the subcommand
+		var head, tail []string
+		for i := 1; i < len(a); i++ {
+			switch a[i] {
+			case "--dirpath":
+				head = append(head, a[i], a[i+1])
+				i++
+			case "--fail", "-q", "-v":
+				head = append(head, a[i])
+			default:
+				tail = append(tail, a[i])
+			}
+		}
+		a = append(append(head, a[0]), tail...)
+	}
 	return a
 }
 
 func (c *c18Case) libSteps() []job.Step {
 	if c.cmd == "list" {
-		s := job.Step{Kind: job.List, Dir: "a", Fmt: c.fmt, Exposure: c.exp, Focus: c.focus, Stop: c.fail}
+		d := "a"
+		if c.dirSpell != "" {
+			d = c.dirSpell
+		}
+		s := job.Step{Kind: job.List, Dir: d, Fmt: c.fmt, Exposure: c.exp, Focus: c.focus, Stop: c.fail}
 		s2 := s
 		s2.API = "infos"
 		return []job.Step{s, s2}
@@ -267,6 +293,10 @@ func c18Build(seed uint64, i int, corpus []CorpusDir, faulty bool) *c18Case {
 		c.fmt = pick(r, []string{"svg", "yaml", "json", "TXT"})
 	}
 	c.fail = r.chance(1, 8)
+	c.flagsFirst = r.chance(1, 5)
+	if r.chance(1, 6) {
+		c.dirSpell = pick(r, []string{"./a", "a/", "a/.", "b/../a"})
+	}
 	c.verb = pick(r, []string{"", "", "-q", "-v"})
 	if c.cmd == "list" {
 		c.exp = r.chance(1, 3)
